@@ -48,9 +48,13 @@ META["C01"] = dict(
           "are exactly the accepted points of that key and period, each once, in arrival order; every field read from the "
           "accumulated state equals its declared aggregate over exactly those points (all expression trees); kernels tied to the "
           "source. The row store model (Model/Store.v: memstore/filestore/flush/merge) is proved to refine this reference for "
-          "every flush schedule in Proofs/StoreP.v. Correspondence: SELECT * on the real DB vs the reference for generated "
-          "schemas, points and flush/reopen schedules."),
-    design_ref="DESIGN.md section 4 / C01", note=_DBNOTE,
+          "every flush schedule in Proofs/StoreP.v. The memstore's radix tree (bytetree, structural model Model/Tree.v: exact match / "
+          "descend / split / new edge, interior nodes, the empty key) is proved to be a finite map for ALL byte-string keys and update "
+          "sequences: every key reads as what its own updates accumulated, Length counts the keys, a Walk reports every key once "
+          "(Proofs/TreeP.v); the tree as shipped is refuted by a witness and was repaired in /repo (e89d368). Correspondence: SELECT * on "
+          "the real DB vs the reference for generated schemas, points and flush/reopen schedules; operation sequences on the real "
+          "bytetree.Tree vs the structural model."),
+    design_ref="DESIGN.md section 4 / C01", note=_DBNOTE + " bytetree is transcribed by hand (tied by stage tree); Tree.bytes and the mutex around removedFor are not modelled.",
     technique="Coq proof (period arithmetic, grouping invariants, get = declared aggregate, store refinement) + real DB vs specification model differential evaluated by vm_compute")
 META["C06"] = dict(
     text=("Theorems (Props/C06.v): each native period lies in exactly one output period (T-P, T] anchored at until, output periods are "
@@ -93,16 +97,19 @@ META["C03"] = dict(
           "histories with the same inserts read the same for every key and period whatever flushes separate them; right after a "
           "flush a disk-only reader equals the memstore-inclusive one; merging the two sides of any split of the points gives the "
           "state of all points; the state read is the one accumulated from exactly the points of that key and period. "
+          "For the radix tree the merge of file and memstore goes through: Remove hands back exactly the key's data once per context and "
+          "changes neither keys nor data (C03_tree_remove, all keys). "
           "Correspondence: the real DB under 5 kinds of flush/reopen schedules, all/some fields, memstore on/off after a flush, vs the "
-          "schedule-independent reference."),
+          "schedule-independent reference; scans held against flushes and the remover (stage pin); the real bytetree.Tree vs Model/Tree.v."),
     design_ref="DESIGN.md section 4 / C03", note=_DBNOTE + " The store model covers one column; per-field independence, sorted flushes (emsort) and memory-pressure flushes are covered by correspondence only / not at all respectively.",
     technique="Coq proof (store refinement by induction over operation lists, StoreP.v) + real DB under generated schedules vs specification model")
 
 META["C04"] = dict(
     text=("Theorems (Props/C04.v): in the row-store model a reader is a function of the state (any sequence of reads leaves every later "
           "read unchanged); Truncate yields exactly the periods in range with unchanged values; a probe reads the same before and "
-          "after a flush. Correspondence: [probe, Q, probe, flush, probe] rounds on the real DB with Q incl. past-UNTIL ranges, and "
-          "operand-bytes-unchanged checks on the real Sequence.Truncate/Merge/SubMerge."),
+          "after a flush. Correspondence: [probe, Q, probe, flush, probe] rounds on the real DB with Q incl. past-UNTIL ranges, "
+          "operand-bytes-unchanged checks on the real Sequence.Truncate/Merge/SubMerge, and probes around queries started while a large "
+          "memstore is being flushed (stage flushrace)."),
     design_ref="DESIGN.md section 4 / C04", note=_DBNOTE + " Buffer aliasing inside encoding.Sequence is covered by the byte-level operand check of the correspondence, not by a heap-level theorem (the memstore snapshot's aliasing is: see C18).",
     technique="Coq proof (functional store model, truncate denotation) + probe/query/probe differential on the real DB + operand byte comparison")
 META["C17"] = dict(
@@ -115,8 +122,11 @@ META["C17"] = dict(
 META["C18"] = dict(
     text=("Theorem (Props/C18.v): in the buffer-level model of the memstore snapshot, after a deep copy no later operation of the live "
           "store (in-place updates of existing periods, new keys, flushes) changes any buffer the snapshot points to; the shipped "
-          "shallow copy is refuted by a witness (Proofs/AliasP.v). Correspondence: scans on the real DB paused after the k-th row "
-          "while points are inserted and flushed."),
+          "shallow copy is refuted by a witness (Proofs/AliasP.v); Tree.Copy of the structural radix-tree model holds exactly the keys and "
+          "data of the tree, without removal marks, and a Walk of it reports each of them (C18_tree_copy, C18_tree_copy_walk). "
+          "Correspondence: scans on the real DB paused after the k-th row while points are inserted and flushed; scans held against "
+          "flushes and the remover of old files (stage pin); queries racing with the application of one multi-value point must see all "
+          "of it or none (stage arrsnap); the real bytetree.Tree vs Model/Tree.v."),
     design_ref="DESIGN.md section 4 / C18", note=_DBNOTE + " The file side of the snapshot (a flush replaces the file while the old one is still being read) is covered by the correspondence only.",
     technique="Coq proof (frame invariant over heap regions) + paused-scan differential on the real DB")
 
@@ -200,8 +210,8 @@ META["C13"] = dict(
     text=("Theorems (Props/C13.v): in the model of fileStore.iterate under a deadline (file rows, then memstore rows, guard checked after "
           "every row) a scan that reports no error has delivered every row, so every omission is reported — including deadlines that "
           "strike inside the memstore part (the shipped code dropped that error: refuted witness in Proofs/ReportP.v). Correspondence: "
-          "deadlines at every placement on the embedded API, failing/slow partitions on an in-process cluster, timeouts and size limits on "
-          "the web API; each outcome must be complete or told."),
+          "deadlines at every placement on the embedded API (alone, and as a member of a shared scan that another member left early), "
+          "failing/slow partitions on an in-process cluster, timeouts and size limits on the web API; each outcome must be complete or told."),
     design_ref="DESIGN.md section 4 / C13",
     note=("PARTIAL: the theorem covers the table scan; group/flatten/sort/limit and queryCluster's bookkeeping are tied by the fault-injection "
           "correspondence only. HTTP 200 with Stats.MissingPartitions in the body on a cluster leader counts as told (statistics clause of the property)."),
